@@ -28,24 +28,24 @@ class ToolError(Exception):
 # view: which observation channels are compared between model and implementation
 # level: evidence level category
 PROPS = {
-    "C01": dict(extra=["enum"], profiles=["core", "alloc", "value"], level="proof", props=["C01", "SRCrel", "SRCops", "SRCalloc"]),
-    "C02": dict(extra=["enum"], profiles=["core", "iters"], level="proof", props=["C02", "SRCrel", "SRCops", "SRCalloc", "SRCtrav"]),
-    "C03": dict(extra=["enum"], profiles=["core", "value"], level="proof", props=["C03", "SRCrel", "SRCops", "SRCalloc"]),
-    "C04": dict(extra=["enum", "genwrap"], profiles=["core", "alloc"], level="proof", props=["C04", "SRCrel", "SRCops", "SRCalloc"]),
-    "C05": dict(extra=["enum"], profiles=["core", "alloc"], level="proof", props=["C05", "SRCrel", "SRCops", "SRCalloc"]),
-    "C06": dict(profiles=["alloc", "core"], level="proof", extra=["stamps", "genwrap"], props=["C06", "SRCalloc", "SRCops"]),
-    "C07": dict(extra=["enum", "genwrap"], profiles=["alloc", "core"], level="proof", props=["C07", "SRCalloc", "SRCops"]),
-    "C08": dict(extra=["enum", "genwrap"], profiles=["alloc", "core", "value"], level="proof", props=["C08", "SRCalloc", "SRCops"]),
-    "C09": dict(profiles=["iters"], level="proof", props=["C09", "C09src", "SRCtrav"]),
-    "C10": dict(profiles=["iters", "core"], level="proof", props=["C10", "C09src"]),
-    "C11": dict(profiles=["core", "alloc"], level="proof", extra=["selfcheck", "genwrap"], props=["C11", "SRCalloc"]),
-    "C12": dict(extra=["enum", "genwrap"], profiles=["core", "alloc"], level="proof", props=["C12", "SRCrel", "SRCops", "SRCalloc"]),
-    "C13": dict(profiles=["value", "core"], level="proof", extra=["selfcheck", "determinism"], props=["C13", "SRCalloc", "SRCops"]),
-    "C14": dict(profiles=["print"], level="proof", extra=["printdeep"], props=["C14", "SRCtrav"]),
+    "C01": dict(extra=["enum"], profiles=["core", "alloc", "value", "big"], level="proof", props=["C01", "SRCrel", "SRCops", "SRCalloc", "INVid", "INVrelations", "INVsiblings_range", "INVnode"]),
+    "C02": dict(extra=["enum", "deep"], profiles=["core", "iters"], level="proof", props=["C02", "SRCrel", "SRCops", "SRCalloc", "SRCtrav", "INVid", "INVrelations", "INVsiblings_range", "INVtraverse"]),
+    "C03": dict(extra=["enum"], profiles=["core", "value"], level="proof", props=["C03", "SRCrel", "SRCops", "SRCalloc", "INVid", "INVrelations", "INVsiblings_range"]),
+    "C04": dict(extra=["enum", "genwrap"], profiles=["core", "alloc", "big"], level="proof", props=["C04", "SRCrel", "SRCops", "SRCalloc", "INVid", "INVrelations", "INVsiblings_range"]),
+    "C05": dict(extra=["enum"], profiles=["core", "alloc"], level="proof", props=["C05", "SRCrel", "SRCops", "SRCalloc", "INVid", "INVrelations", "INVsiblings_range", "INVerror"]),
+    "C06": dict(profiles=["alloc", "core"], level="proof", extra=["stamps", "genwrap"], props=["C06", "SRCalloc", "SRCops", "INVid", "INVarena", "INVnode"]),
+    "C07": dict(extra=["enum", "genwrap"], profiles=["alloc", "core", "big"], level="proof", props=["C07", "SRCalloc", "SRCops", "INVarena", "INVnode"]),
+    "C08": dict(extra=["enum", "genwrap"], profiles=["alloc", "core", "value", "big"], level="proof", props=["C08", "SRCalloc", "SRCops", "INVarena", "INVnode"]),
+    "C09": dict(profiles=["iters"], level="proof", props=["C09", "C09src", "SRCtrav", "INVtraverse"]),
+    "C10": dict(profiles=["iters", "core"], level="proof", props=["C10", "C09src", "SRCtrav", "INVtraverse", "INVnode", "INVarena"]),
+    "C11": dict(profiles=["core", "alloc"], level="proof", extra=["selfcheck", "genwrap"], props=["C11", "SRCalloc", "INVarena", "INVnode", "INVid"]),
+    "C12": dict(extra=["enum", "genwrap"], profiles=["core", "alloc", "big"], level="proof", props=["C12", "SRCrel", "SRCops", "SRCalloc", "INVid", "INVrelations", "INVsiblings_range"]),
+    "C13": dict(profiles=["value", "core"], level="proof", extra=["selfcheck", "determinism"], props=["C13", "SRCalloc", "SRCops", "INVarena", "INVnode"]),
+    "C14": dict(profiles=["print"], level="proof", extra=["printdeep"], props=["C14", "SRCtrav", "INVdebug_pretty_print", "INVtraverse"]),
     "C15": dict(profiles=[], level="proof", extra=["macro"]),
-    "C16": dict(profiles=["serde"], level="proof"),
-    "C17": dict(profiles=[], level="translation_validation", extra=["features"]),
-    "C18": dict(profiles=[], level="proof", extra=["selfcheck", "autotraits"]),
+    "C16": dict(profiles=["serde"], level="proof", props=["C16", "INVarena", "INVnode", "INVid"]),
+    "C17": dict(profiles=[], level="translation_validation", extra=["features"], props=["C17", "INVlib"]),
+    "C18": dict(profiles=[], level="proof", extra=["selfcheck", "autotraits"], props=["C18", "INVlib", "INVarena", "INVnode", "INVtraverse", "INVdebug_pretty_print"]),
 }
 
 TRUSTED_BASE = [
@@ -238,15 +238,15 @@ def view(pid, cmd, line):
     """canonical projection of one observation line for property pid, or None if irrelevant"""
     k = line[:1]
     if pid == "C01": return a_links(line) if k == "a" else None
-    if pid == "C02": return a_links(line) if k == "a" else (line if k in "rid" else None)
+    if pid == "C02": return a_links(line) if k == "a" else (line if k in "ridy" else None)
     if pid == "C03": return a_links(line) if k == "a" else (line if k == "e" else None)
     if pid == "C04": return a_links(line) if k == "a" else None
     if pid == "C05": return line if k in "ra" else None
     if pid == "C06": return line if (k == "m" or line.startswith("r id")) else None
     if pid == "C07": return a_alloc(line) if k == "a" else (line if (k == "f" or line.startswith("r id")) else None)
     if pid == "C08": return a_pay(line) if k == "a" else (line if k == "x" else None)
-    if pid == "C09": return a_links(line) if k == "a" else (line if k in "id" else None)     # iterators read the links
-    if pid == "C10": return a_links(line) if k == "a" else (line if k == "d" else None)
+    if pid == "C09": return a_links(line) if k == "a" else (line if k in "idy" else None)     # iterators read the links
+    if pid == "C10": return a_links(line) if k == "a" else (line if k in "dy" else None)
     if pid == "C11": return line if k == "l" else None
     if pid == "C12": return a_dead(line) if k == "a" else (line if k == "r" else None)
     if pid == "C13": return line
@@ -286,12 +286,31 @@ def analyse(pid, r, ops, obs, mod, mon, st, build):
     rc, out = sh([RUNNER, "--ops", ops, "--obs", mod, "--dbg", dbg], timeout=1200)
     if rc != 0:
         raise ToolError("model runner failed: " + out[-2000:])
-    rc, out = sh([RUNNER, "--ops", ops, "--monitor", obs, "--out", mon], timeout=1200)
-    if rc != 0:
-        raise ToolError("monitor failed: " + out[-2000:])
     ops_l = [l.rstrip("\n") for l in open(ops, errors="replace") if l.strip() and not l.startswith("#")]
     obs_l = [l.rstrip("\n") for l in open(obs, errors="replace")]
     mod_l = [l.rstrip("\n") for l in open(mod, errors="replace")]
+    # very long single histories (generation wrap): once implementation and model have parted, the monitor is run
+    # on the prefix up to shortly after the first difference (a diverged arena can grow without bound, and the
+    # monitors are quadratic in the number of slots)
+    mops, mobs = ops, obs
+    if len(ops_l) > 20000:
+        first = next((i for i in range(min(len(obs_l), len(mod_l))) if obs_l[i] != mod_l[i]), None)
+        if first is not None and first + 400 < len(ops_l):
+            mops, mobs = ops + ".cut", obs + ".cut"
+            raw = [l.rstrip("\n") for l in open(ops, errors="replace")]
+            keep, n = [], 0
+            for l in raw:
+                keep.append(l)
+                if l.strip() and not l.startswith("#"): n += 1
+                if n >= first + 400: break
+            open(mops, "w").write("\n".join(keep + ["end"]) + "\n")
+            open(mobs, "w").write("\n".join(obs_l[:first + 400]) + "\n")
+    rc, out = sh([RUNNER, "--ops", mops, "--monitor", mobs, "--out", mon], timeout=1200)
+    if rc == 124:
+        open(mon, "a").write("")
+        r["hang"] = (r.get("hang") or "") + " property monitor did not finish within 1200 s on the implementation's observations"
+    elif rc != 0:
+        raise ToolError("monitor failed: " + out[-2000:])
     r["lines"] = len(obs_l)
     hist = -1
     first_by_hist = {}
@@ -471,6 +490,7 @@ def plan(pid, tier, seed):
             for s in range(nseeds):
                 h = hists if prof != "iters" else max(60, hists // 4)
                 if prof == "print": h = max(60, hists // 3)
+                if prof == "big": h = max(80, hists // 8)
                 batches.append((prof, b, seed * 1000 + s * 17 + (0 if b == "debug" else 1), h, length))
     return batches
 
@@ -515,9 +535,11 @@ def check(pid, tier, seed):
         print("KNOWN-FINDING: property=%s %s" % (pid, k.get("what", m["msg"])))
 
     violation = None
-    if extra.get("violations"):
-        v = extra["violations"][0]
-        violation = dict(kind="extra", header=v["header"], ops=v.get("ops", ["# (no op history: see header)"]), nofail=v.get("nofail", False))
+    ev = extra.get("violations") or []
+    hard = [v for v in ev if not v.get("nofail", False)]     # extras that come with a concrete failing input
+    if hard:
+        v = hard[0]
+        violation = dict(kind="extra", header=v["header"], ops=v.get("ops", ["# (no op history: see header)"]), nofail=False)
     elif mon_fail:
         r, m, _ = mon_fail[0]
         ops_l = history_ops(r["ops"], m["hist"])
@@ -526,7 +548,7 @@ def check(pid, tier, seed):
             "property %s violated on the implementation (%s build)" % (pid, r["build"]),
             "monitor: %s" % m["msg"], "at command [%s] (step %d of history %d, profile %s, seed %d)" % (m["cmd"], m["step"], m["hist"], r["profile"], r["seed"]),
             "replay: bin/vcheck %s --replay <this file>" % pid], ops=small, nofail=False)
-    elif diffs or hangs or proof_broken:
+    elif diffs or hangs or proof_broken or ev:
         # something no longer checks: search for a concrete failing input with the monitors
         found = None
         try:
@@ -574,18 +596,21 @@ def check(pid, tier, seed):
         else:
             hdr = []
             ops_l = ["# no failing input found"]
+            if ev:
+                hdr += ev[0]["header"]
+                ops_l = ev[0].get("ops", ops_l)
             if proof_broken:
                 hdr.append("theorems of %s no longer check: %s" % (proof["file"], " | ".join(l for l in (proof["log"] or "").splitlines() if l.strip() and "Closed under" not in l)[-600:]))
                 for n in BUILD_NOTES[:8]: hdr.append(n)
                 for a in audit[:5]: hdr.append("audit: " + a)
-            if diffs:
+            if diffs and not ev:
                 r, d = diffs[0]
                 hdr += ["correspondence broken on the %s view (%s build, profile %s, seed %d): model and implementation differ" % (pid, r["build"], r["profile"], r["seed"]),
                         "first differing observation: command [%s] (history %d)" % (d["cmd"], d["hist"]),
                         "  implementation: %s" % d["impl"], "  model         : %s" % d["model"],
                         "the property's own monitor did not fail on any explored history"]
                 ops_l = shrink(pid, wd, bins[r["build"]], r["build"], history_ops(r["ops"], d["hist"]), False)
-            elif hangs:
+            elif hangs and not ev:
                 r = hangs[0]
                 hdr.append("implementation did not return: " + r["hang"])
             violation = dict(kind="correspondence", header=hdr, ops=ops_l, nofail=True)
